@@ -26,6 +26,8 @@ def to_smt2(assertions, getvals):
     for op in ('bvudiv', 'bvurem', 'bvsdiv', 'bvsrem', 'bvsmod'):
         txt = txt.replace('(%s_i ' % op, '(%s ' % op)
     out = ['(set-logic ALL)', '(set-option :produce-models true)', txt, '(check-sat)']
+    declared = set(re.findall(r'\(declare-fun\s+(\|[^|]*\||[^\s()]+)', txt)) | set(re.findall(r'\(declare-const\s+(\|[^|]*\||[^\s()]+)', txt))
+    getvals = [g for g in getvals if g in declared]
     if getvals:
         out.append('(get-value (%s))' % ' '.join(getvals))
     return '\n'.join(out) + '\n'
